@@ -26,6 +26,7 @@ type child struct {
 func (c *child) ObjString() string { return "tree:" + c.name }
 
 type eng struct {
+	deep   int
 	p      *load.Program
 	s      *oblig.Set
 	sp     *ssa.Package
@@ -39,6 +40,9 @@ type eng struct {
 func Run(p *load.Program, tier string) *oblig.Set {
 	s := oblig.NewSet()
 	e := &eng{p: p, s: s}
+	if tier == "thorough" {
+		e.deep = 1 // symbol tables of depth 0..4, loops with 1..4 variables
+	}
 	e.sp = p.SPkg("types/node")
 	if e.sp == nil {
 		s.Unk("ANCHOR", "package node", "-", "not found")
@@ -314,7 +318,7 @@ func (e *eng) names() {
 		return
 	}
 	pos := e.p.Pos(fn.Pos())
-	for depth := 0; depth <= 3; depth++ {
+	for depth := 0; depth <= 3+e.deep; depth++ {
 		for mask := 0; mask < 1<<uint(depth); mask++ {
 			c := e.newCtx()
 			var scopes []map[string]int64
@@ -440,8 +444,8 @@ func (e *eng) forLoop() {
 	// and new ones (1..3 variables, one unrelated local before them): an
 	// existing variable keeps its slot, a new one takes the next free slot at
 	// the moment it is registered, so that slots stay dense and distinct
-	for n := 1; n <= 3; n++ {
-		names := []string{"p", "q", "r"}[:n]
+	for n := 1; n <= 3+e.deep; n++ {
+		names := []string{"p", "q", "r", "s"}[:n]
 		for mask := 0; mask < 1<<n; mask++ {
 			scope := map[string]int64{"z": 0}
 			var pre []string
